@@ -376,6 +376,103 @@ static void run_epoch(world_t *w, ectx_t *c, vrt_rng *r, uint64_t seed)
     vrt_count(c->is_future ? c_fu_epochs : c_ev_epochs, 1);
 }
 
+/* reset race: a participant that sees the eventual ready resets it at once and
+ * waits for the next generation while the setter of the previous generation
+ * may still be waking a long list of waiters.  The new wait must not return
+ * before the next set has been issued, and must return after it. */
+static struct {
+    ABT_eventual ev;
+    int entered, returned0;
+    int gen1_started, set2_issued, ext_returned, ext_early;
+    uint64_t ext_val;
+} g_rr;
+static int c_rr_scen, c_rr_waiters, c_rr_reset_during_wakeup;
+static void rr_waiter_fn(void *arg)
+{
+    (void)arg;
+    void *val = NULL;
+    __atomic_fetch_add(&g_rr.entered, 1, __ATOMIC_SEQ_CST);
+    VRT_ABT(ABT_eventual_wait(g_rr.ev, &val));
+    __atomic_fetch_add(&g_rr.returned0, 1, __ATOMIC_SEQ_CST);
+}
+static void *rr_ext_main(void *arg)
+{
+    (void)arg;
+    ABT_bool ready = ABT_FALSE;
+    while (!ready)
+        ABT_eventual_test(g_rr.ev, NULL, &ready);
+    ABT_eventual_reset(g_rr.ev);
+    if (__atomic_load_n(&g_rr.returned0, __ATOMIC_SEQ_CST) < __atomic_load_n(&g_rr.entered, __ATOMIC_SEQ_CST))
+        vrt_count(c_rr_reset_during_wakeup, 1);
+    void *val = NULL;
+    __atomic_store_n(&g_rr.gen1_started, 1, __ATOMIC_SEQ_CST);
+    ABT_eventual_wait(g_rr.ev, &val);
+    if (!__atomic_load_n(&g_rr.set2_issued, __ATOMIC_SEQ_CST))
+        __atomic_store_n(&g_rr.ext_early, 1, __ATOMIC_SEQ_CST);
+    if (val)
+        memcpy(&g_rr.ext_val, val, 8);
+    __atomic_store_n(&g_rr.ext_returned, 1, __ATOMIC_SEQ_CST);
+    return NULL;
+}
+static void run_reset_race(vrt_rng *r, int nmax)
+{
+    memset(&g_rr, 0, sizeof(g_rr));
+    VRT_ABT(ABT_init(0, NULL));
+    VRT_ABT(ABT_eventual_create(8, &g_rr.ev));
+    int n = nmax / 4 + (int)vrt_range(r, (uint64_t)(nmax - nmax / 4));
+    ABT_xstream xs;
+    ABT_pool pool;
+    VRT_ABT(ABT_xstream_create(ABT_SCHED_NULL, &xs));
+    VRT_ABT(ABT_xstream_get_main_pools(xs, 1, &pool));
+    ABT_thread *th = (ABT_thread *)malloc(sizeof(ABT_thread) * (size_t)n);
+    for (int i = 0; i < n; i++)
+        VRT_ABT(ABT_thread_create(pool, rr_waiter_fn, NULL, ABT_THREAD_ATTR_NULL, &th[i]));
+    /* all waiters blocked */
+    for (;;) {
+        size_t sz = 1;
+        VRT_ABT(ABT_pool_get_size(pool, &sz));
+        if (__atomic_load_n(&g_rr.entered, __ATOMIC_SEQ_CST) == n && sz == 0)
+            break;
+        ABT_thread_yield();
+    }
+    pthread_t pt;
+    if (pthread_create(&pt, NULL, rr_ext_main, NULL))
+        vrt_fatal("pthread_create");
+    vrt_sleep_us(200 + (unsigned)vrt_range(r, 2000));
+    uint64_t a = 0xA1A1A1A1A1A1A1A1ull, b = 0xB2B2B2B2B2B2B2B2ull;
+    VRT_ABT(ABT_eventual_set(g_rr.ev, &a, 8));
+    vrt_call_begin("reset + wait for the next generation by an external thread that saw the eventual ready");
+    while (!__atomic_load_n(&g_rr.gen1_started, __ATOMIC_SEQ_CST))
+        ABT_thread_yield();
+    vrt_call_end();
+    /* grace: the new waiter goes to sleep (or, if broken, returns early) */
+    vrt_sleep_us(1000 + (unsigned)vrt_range(r, 4000));
+    __atomic_store_n(&g_rr.set2_issued, 1, __ATOMIC_SEQ_CST);
+    int rc2 = ABT_eventual_set(g_rr.ev, &b, 8);
+    vrt_call_begin("ABT_eventual_wait started after ABT_eventual_reset, the next ABT_eventual_set has returned");
+    pthread_join(pt, NULL);
+    vrt_call_end();
+    VRT_CHECK(!g_rr.ext_early, "eventual:wait-returned-before-set", "ABT_eventual_wait called after ABT_eventual_reset returned "
+              "although no ABT_eventual_set had been issued since the reset (%d waiters of the previous generation, %d of them "
+              "back at that time)", n, g_rr.returned0);
+    VRT_CHECK(rc2 == ABT_SUCCESS, "eventual:set-after-reset-rejected", "the set after the reset returned %d", rc2);
+    if (vrt_num_violations() == 0 && !g_rr.ext_early)
+        VRT_CHECK(g_rr.ext_val == b, "eventual:wrong-value", "the waiter of the second generation read %llx",
+                  (unsigned long long)g_rr.ext_val);
+    vrt_call_begin("join of the waiters of the first generation after its set returned");
+    for (int i = 0; i < n; i++)
+        VRT_ABT(ABT_thread_free(&th[i]));
+    vrt_call_end();
+    VRT_CHECK(g_rr.returned0 == n, "eventual:waiter-not-woken", "%d of %d waiters returned", g_rr.returned0, n);
+    free(th);
+    VRT_ABT(ABT_xstream_join(xs));
+    VRT_ABT(ABT_xstream_free(&xs));
+    VRT_ABT(ABT_eventual_free(&g_rr.ev));
+    VRT_ABT(ABT_finalize());
+    vrt_count(c_rr_scen, 1);
+    vrt_count(c_rr_waiters, (uint64_t)n);
+}
+
 int main(int argc, char **argv)
 {
     vrt_init(argc, argv, "h_evfut");
@@ -397,9 +494,18 @@ int main(int argc, char **argv)
     c_cb = vrt_counter("callbacks");
     c_nbytes0 = vrt_counter("eventual_nbytes0_epochs");
     c_ncomp0 = vrt_counter("future_0_compartments_epochs");
+    c_rr_scen = vrt_counter("reset_race_scenarios");
+    c_rr_waiters = vrt_counter("reset_race_waiters");
+    c_rr_reset_during_wakeup = vrt_counter("resets_issued_before_all_previous_waiters_were_back");
     vrt_supervisor_start();
     vrt_rng r;
     vrt_rng_init(&r, vrt_seed, 13);
+    {
+        int rr = (int)vrt_arg_int("reset-races", 3);
+        int rrn = (int)(vrt_arg_int("reset-waiters", 1200) / (vrt_san_scale > 1.5 ? 6 : 1));
+        for (int i = 0; i < rr && vrt_num_violations() == 0; i++)
+            run_reset_race(&r, rrn < 8 ? 8 : rrn);
+    }
     static const int nbytes_opts[] = { 0, 1, 8, 4096, 8, 100 };
     static const int ncomp_opts[] = { 0, 1, 2, 7, 64, 3 };
     for (int s = 0; s < scen && vrt_num_violations() == 0; s++) {
